@@ -6,3 +6,4 @@
 
 pub mod escape;
 pub mod locks;
+pub mod units;
